@@ -74,7 +74,8 @@ def cum_requests(op, dt, codes, vals, ng, mask, skip_na):
         dom, v = DT[dt]["dom"], vals
         if op == "sum" and dt in ("i4", "u1", "b"):
             dom = "i"      # integer sums accumulate in int64, whose null marker is the int64 sentinel
-    m = sx(["cumulative", dom, op, 1 if skip_na else 0, list(codes), atoms(v, dom), ng, bmask_sx(mask)])
+    temporal = 1 if dt in ("M8", "m8") and op != "count" else 0    # orig_dtype.kind in "mM": the non-skipping sum keeps NaT
+    m = sx(["cumulative", dom, temporal, op, 1 if skip_na else 0, list(codes), atoms(v, dom), ng, bmask_sx(mask)])
     if skip_na:
         s = sx(["cum_spec", dom, op, list(codes), atoms(v, dom), bmask_sx(mask)])
     elif op == "sum":
